@@ -167,4 +167,17 @@ PROPS = {
         "text": "The tampering list is enumerated completely for every commit of every generated history (fault enumeration over the fields of the block and of its signature block); histories and key types are sampled. Oracle: after quiescence the receiver's documents, commits and heads are what they were before the forged push; the genuine commit verifies and merges.",
         "note": "Whether the RPC itself returned an error is recorded, not demanded. Changing only the type label of the signature block is not required to make VerifyBlockSignatureWithKey fail (the statement lists delta, parents and links); it must still not be merged on receipt. exhaustive=false (histories sampled).",
     },
+    "C06": {
+        "engine": "E4a", "level": "exploration", "design_ref": "DESIGN.md §5 C06",
+        "technique": "deterministic simulation: seeded interleavings of the operations of 2-3 explicit transactions and non-transactional calls on one node, checked step by step against a snapshot-isolation reference model",
+        "rule": ("2-3 explicit transactions of 1-4 operations each (create, update incl. counter increment, delete, listing, read by id, filtered read, read through an indexed field) plus up to 4 non-transactional operations, "
+                 "commit or discard, order-preserving seeded interleaving; plain, branchable and indexed collections. non-trivial: two open transactions (or a transaction and an outside write) modified the same document; distinct = hash of the (actor, operation kind, commit outcome) sequence"),
+        "real_vs_stub": "real: DB.NewTxn, Txn.ExecRequest, commit/discard, badger's optimistic conflict detection (in-memory) under SimStore; no stubs besides the disk log; the interleaving is decided at API-call granularity by one driver goroutine (transactions never block each other)",
+        "assumptions": ASSUME_COMMON + ["spurious conflicts are allowed (the statement does not forbid them)"],
+        "probes": ["commits_ok", "commit_conflicts", "overlapping_modifications", "reads_checked"],
+        "quick": {"count": 200, "budget_s": 60, "workers": 16},
+        "thorough": {"count": 1000000, "budget_s": 1200, "workers": 16},
+        "text": "Every read inside a transaction must equal the committed state at its start overlaid with its own writes; reads outside see only committed state, and after every commit/discard the committed state is compared; a commit may fail only with the conflict error; two overlapping transactions (or a transaction and an outside write) that modified the same document must not both succeed.",
+        "note": "Trusted: the reference model (per-transaction copy of the committed map). Concurrency inside one call (goroutines) is C16's subject, not this check's.",
+    },
 }
